@@ -394,7 +394,11 @@ func specMode(a map[string]string) {
 	cases := make([]*opCase, n)
 	for i := range cases {
 		r := common.NewRand(seed*1000003 + uint64(i))
-		cases[i] = &opCase{idx: i, cfg: cfgs[i%len(cfgs)], useed: seed*7919 + uint64(i)*31 + 1, harsh: []int{0, 0, 1, 2, 4}[r.Pick(5)]}
+		cfg := cfgs[i%3%len(cfgs)]
+		if len(cfgs) > 3 && i%13 == 12 {
+			cfg = cfgs[3]
+		}
+		cases[i] = &opCase{idx: i, cfg: cfg, useed: seed*7919 + uint64(i)*31 + 1, harsh: []int{0, 0, 1, 2, 4}[r.Pick(5)]}
 	}
 	var wg sync.WaitGroup
 	ch := make(chan int)
@@ -683,7 +687,11 @@ func shrinkMode(a map[string]string) {
 	w := newWorker(cfgs)
 	defer w.exec.Close()
 	r := common.NewRand(seed*1000003 + uint64(idx))
-	oc := &opCase{cfg: cfgs[idx%len(cfgs)], useed: seed*7919 + uint64(idx)*31 + 1, harsh: []int{0, 0, 1, 2, 4}[r.Pick(5)]}
+	cfgName := cfgs[idx%3%len(cfgs)]
+	if len(cfgs) > 3 && idx%13 == 12 {
+		cfgName = cfgs[3]
+	}
+	oc := &opCase{cfg: cfgName, useed: seed*7919 + uint64(idx)*31 + 1, harsh: []int{0, 0, 1, 2, 4}[r.Pick(5)]}
 	plan := orderPlan{maxOrders: orders}
 	processOp(w, oc, plan, seed*31+uint64(idx))
 	classes := map[string]bool{}
